@@ -332,8 +332,176 @@ def rotation_table(repo, unparsed):
     return rows, norm
 
 
+# --------------------------------------------------------------------------- fingerprints of hand-modelled functions
+# The resolver / graph builder / graph placer are HAND models (lean/Lcapy/Model/Layout.lean, LayoutPlacer.lean).  Their tie
+# to the source is the run-time correspondence; in addition the source text of every function they mirror is
+# fingerprinted (sha256 of the AST without docstrings), so that an edit of any of them is reported as a broken tie even
+# if no generated input happens to exercise it.  `python3 tx_layout.py --fingerprints` prints the current values.
+MODELLED = {
+    'schematics/components/cpt.py': {'Cpt': ['size', 'scale', 'angle', 'stretch', 'fixed', 'free', 'ignore', 'offset', 'mirror', 'invert',
+                                              'flipud', 'fliplr', 'mirrorinputs', 'boolattr', 'kind', 'w', 'h', 'aspect', 'right', 'left',
+                                              'up', 'down', 'required_node_names', 'nodes', 'required_pins', 'coords', 'scales',
+                                              'tcoords', 'xvals', 'yvals', 'tf', 'R', 'implicit_key', 'process_implicit_nodes']},
+    'schematics/components/fixedcpt.py': {'FixedCpt': ['tf']},
+    'schematics/components/transistor.py': {'Transistor': ['pins']},
+    'schematic.py': {'Schematic': ['_cpt_add', '_node_add', 'make_graphs', '_positions_calculate']},
+    'schemplacerbase.py': {'SchemPlacerBase': ['_xlink', '_ylink', '_place', '_xplace', '_yplace', '_make_graphs', 'solve']},
+    'schemgraph.py': {'Gnode': ['add_fedge', 'add_redge'],
+                      'GraphPath': ['dist', 'stretches', 'to_gnode', 'from_gnode'],
+                      'Graph': ['add', 'add_node', 'add_edges', 'add_start_nodes', 'assign_fixed1', 'assign_fixed', 'assign_stretchy1',
+                                'assign_stretchy', 'assign_longest', 'prune', 'solve', 'longest_path', 'makepath',
+                                'path_to_closest_known', 'check_positions']},
+    'cnodes.py': {'Cnodes': ['__init__', 'link']},
+    'schemnode.py': {'Node': ['append', 'count', 'split']},
+    'opts.py': {'Opts': ['add']},
+}
+
+# statement of Schematic.draw that the model mirrors (`Netlist.drawKeys`)
+DRAW_OVERRIDE = """
+for elt in self.elements.values():
+    for key in list(elt.opts):
+        if key in kwargs and key != 'style':
+            elt.opts.remove(key)
+"""
+
+EXPECTED_FINGERPRINTS = {'cnodes.py:Cnodes.__init__': 'd50cbb184ffa54ce',
+ 'cnodes.py:Cnodes.link': 'cd0c9771c9d09fe2',
+ 'opts.py:Opts.add': '9864dae668c4990c',
+ 'schematic.py:Schematic._cpt_add': '3a175cebfb32ef1a',
+ 'schematic.py:Schematic._node_add': 'a4ae181ca19fb96c',
+ 'schematic.py:Schematic._positions_calculate': '65b6f4c9d2e76fc1',
+ 'schematic.py:Schematic.draw[option override loop]': 'present',
+ 'schematic.py:Schematic.make_graphs': '670851cc3b6efd94',
+ 'schematics/components/cpt.py:Cpt.R': 'ea69fc610118fe6e',
+ 'schematics/components/cpt.py:Cpt.angle': 'a328e030c0e777a6',
+ 'schematics/components/cpt.py:Cpt.aspect': 'f04b9e2085f7104c',
+ 'schematics/components/cpt.py:Cpt.boolattr': 'bb092211492f5cdf',
+ 'schematics/components/cpt.py:Cpt.coords': '2dabc5f1a98dc751',
+ 'schematics/components/cpt.py:Cpt.down': '777fe1301db82313',
+ 'schematics/components/cpt.py:Cpt.fixed': 'c1158c08cfb60eb9',
+ 'schematics/components/cpt.py:Cpt.fliplr': 'e694b68a4dbf5d94',
+ 'schematics/components/cpt.py:Cpt.flipud': 'da26124f08420e12',
+ 'schematics/components/cpt.py:Cpt.free': '0fa177ed7a6d82a0',
+ 'schematics/components/cpt.py:Cpt.h': 'f2e64158e9e558ac',
+ 'schematics/components/cpt.py:Cpt.ignore': 'dfc57a219de4e3e0',
+ 'schematics/components/cpt.py:Cpt.implicit_key': '5a97873ceba56059',
+ 'schematics/components/cpt.py:Cpt.invert': 'bb50a2a02b429609',
+ 'schematics/components/cpt.py:Cpt.kind': '9a7b613a0753bb7c',
+ 'schematics/components/cpt.py:Cpt.left': '1efbc8e1f7a05930',
+ 'schematics/components/cpt.py:Cpt.mirror': '5389c67bc79bbf1d',
+ 'schematics/components/cpt.py:Cpt.mirrorinputs': 'bb2697ae609f7de1',
+ 'schematics/components/cpt.py:Cpt.nodes': '086ec928f5409ca5',
+ 'schematics/components/cpt.py:Cpt.offset': 'a82a881e162e4816',
+ 'schematics/components/cpt.py:Cpt.process_implicit_nodes': 'e179961880e99120',
+ 'schematics/components/cpt.py:Cpt.required_node_names': 'f496b4c19c6ebc3b',
+ 'schematics/components/cpt.py:Cpt.required_pins': '5d987e2d1e338559',
+ 'schematics/components/cpt.py:Cpt.right': '182b0ab81796a598',
+ 'schematics/components/cpt.py:Cpt.scale': '9ab5309bd1156928',
+ 'schematics/components/cpt.py:Cpt.scales': 'a5a9bc35f5994f59',
+ 'schematics/components/cpt.py:Cpt.size': 'e0be55e2df02773d',
+ 'schematics/components/cpt.py:Cpt.stretch': '943ce129b02ab92b',
+ 'schematics/components/cpt.py:Cpt.tcoords': 'cead142786aaf464',
+ 'schematics/components/cpt.py:Cpt.tf': '956ae3581b69593c',
+ 'schematics/components/cpt.py:Cpt.up': 'cc8c9049eaa1e8d8',
+ 'schematics/components/cpt.py:Cpt.w': 'b3f6b9c6d2ffa087',
+ 'schematics/components/cpt.py:Cpt.xvals': '5c2ae34eba9a7800',
+ 'schematics/components/cpt.py:Cpt.yvals': '0ade6907660f2fb1',
+ 'schematics/components/fixedcpt.py:FixedCpt.tf': '912b73d9813fc423',
+ 'schematics/components/transistor.py:Transistor.pins': 'd405bcf4d7bc41cb',
+ 'schemgraph.py:Gnode.add_fedge': '14a6cc7483e3facc',
+ 'schemgraph.py:Gnode.add_redge': 'bf1e1fc4925bd0e1',
+ 'schemgraph.py:Graph.add': '12db3ab9cc46995b',
+ 'schemgraph.py:Graph.add_edges': '1df0700c921b1d1e',
+ 'schemgraph.py:Graph.add_node': '620876998f0569bf',
+ 'schemgraph.py:Graph.add_start_nodes': '04d9831a13b87525',
+ 'schemgraph.py:Graph.assign_fixed': '600ca13b8fa1c282',
+ 'schemgraph.py:Graph.assign_fixed1': '585f994c860f8b6a',
+ 'schemgraph.py:Graph.assign_longest': '03cb82157d7a33e4',
+ 'schemgraph.py:Graph.assign_stretchy': '9343ac60c6a61442',
+ 'schemgraph.py:Graph.assign_stretchy1': 'd4f2d2ab335f0244',
+ 'schemgraph.py:Graph.check_positions': '7d0b77f8add5c3b2',
+ 'schemgraph.py:Graph.longest_path': 'cb3dc7a83359a74e',
+ 'schemgraph.py:Graph.makepath': 'c28f0818128d1833',
+ 'schemgraph.py:Graph.path_to_closest_known': 'ad28e9e1d90d8175',
+ 'schemgraph.py:Graph.prune': '682711fe012e2de6',
+ 'schemgraph.py:Graph.solve': 'f838a97cd77b5ece',
+ 'schemgraph.py:GraphPath.dist': '3953297acdf86bf5',
+ 'schemgraph.py:GraphPath.from_gnode': '0b7f09334f147fe6',
+ 'schemgraph.py:GraphPath.stretches': '6a3c16555eea1b63',
+ 'schemgraph.py:GraphPath.to_gnode': '9fc5c9b933ddcba7',
+ 'schemnode.py:Node.append': 'ae43885de5171fd0',
+ 'schemnode.py:Node.count': '8cc002f94a638e6b',
+ 'schemnode.py:Node.split': '0bbf86e99a8aa68c',
+ 'schemplacerbase.py:SchemPlacerBase._make_graphs': 'ba44b240aec0b551',
+ 'schemplacerbase.py:SchemPlacerBase._place': '225acd1a0053209d',
+ 'schemplacerbase.py:SchemPlacerBase._xlink': '436dabb1f1f84fd5',
+ 'schemplacerbase.py:SchemPlacerBase._xplace': 'd2841276cd7d577f',
+ 'schemplacerbase.py:SchemPlacerBase._ylink': '92c789092119fd34',
+ 'schemplacerbase.py:SchemPlacerBase._yplace': 'd6f3ca7812c4ff70',
+ 'schemplacerbase.py:SchemPlacerBase.solve': '48de93395a683e0b'}      # generated by `--fingerprints` on the source the models were written for
+
+
+def _strip_doc(fn):
+    import copy
+    fn = copy.deepcopy(fn)
+    if fn.body and isinstance(fn.body[0], ast.Expr) and isinstance(fn.body[0].value, ast.Constant) and isinstance(fn.body[0].value.value, str):
+        fn.body = fn.body[1:] or [ast.Pass()]
+    for n in ast.walk(fn):
+        for a in ('lineno', 'col_offset', 'end_lineno', 'end_col_offset'):
+            if hasattr(n, a):
+                setattr(n, a, 0)
+    return fn
+
+
+def fingerprints(repo):
+    """{'file:Class.func': sha256[:16]} of every hand-modelled function, plus the draw-override statement"""
+    import hashlib
+    out = {}
+    for rel, cls in MODELLED.items():
+        path = os.path.join(repo, 'lcapy', rel)
+        try:
+            with warnings.catch_warnings():
+                warnings.simplefilter('ignore')
+                tree = ast.parse(open(path).read())
+        except OSError:
+            for c, fns in cls.items():
+                for f in fns:
+                    out['%s:%s.%s' % (rel, c, f)] = 'missing-file'
+            continue
+        defs = {n.name: n for n in tree.body if isinstance(n, ast.ClassDef)}
+        for c, fns in cls.items():
+            body = {n.name: n for n in defs[c].body if isinstance(n, ast.FunctionDef)} if c in defs else {}
+            # a property and its setter share a name: keep the first definition (the getter)
+            seen = {}
+            if c in defs:
+                for n in defs[c].body:
+                    if isinstance(n, ast.FunctionDef) and n.name not in seen:
+                        seen[n.name] = n
+            for f in fns:
+                if f not in seen:
+                    out['%s:%s.%s' % (rel, c, f)] = 'missing'
+                else:
+                    out['%s:%s.%s' % (rel, c, f)] = hashlib.sha256(ast.dump(_strip_doc(seen[f])).encode()).hexdigest()[:16]
+    # Schematic.draw: the override loop must be present verbatim
+    try:
+        with warnings.catch_warnings():
+            warnings.simplefilter('ignore')
+            tree = ast.parse(open(os.path.join(repo, 'lcapy', 'schematic.py')).read())
+        sch = [n for n in tree.body if isinstance(n, ast.ClassDef) and n.name == 'Schematic'][0]
+        draw = [n for n in sch.body if isinstance(n, ast.FunctionDef) and n.name == 'draw'][0]
+        want = ast.dump(ast.parse(DRAW_OVERRIDE).body[0])
+        out['schematic.py:Schematic.draw[option override loop]'] = 'present' if any(ast.dump(st) == want for st in draw.body) else 'absent'
+    except (OSError, IndexError):
+        out['schematic.py:Schematic.draw[option override loop]'] = 'missing'
+    return out
+
+
 def generate(repo):
     classes, order, unparsed = collect(repo)
+    fp = fingerprints(repo)
+    for k in sorted(set(fp) | set(EXPECTED_FINGERPRINTS)):
+        if fp.get(k) != EXPECTED_FINGERPRINTS.get(k):
+            unparsed.append('hand-modelled source changed: %s (fingerprint %s, model written for %s)' % (k, fp.get(k), EXPECTED_FINGERPRINTS.get(k)))
     rot_rows, rot_norm = rotation_table(repo, unparsed)
     rows = []
     emitted = []
@@ -488,6 +656,10 @@ def generate(repo):
 
 if __name__ == '__main__':
     import sys
+    if '--fingerprints' in sys.argv:
+        import pprint
+        pprint.pprint(fingerprints([a for a in sys.argv[1:] if not a.startswith('--')][0] if len(sys.argv) > 2 else '/repo'), width=150)
+        sys.exit(0)
     t, info = generate(sys.argv[1] if len(sys.argv) > 1 else '/repo')
     print(t[:3000])
     print(len(info['classes']), 'classes;', 'unparsed:', info['unparsed'])
